@@ -1,13 +1,100 @@
 /-
 C11 — Parameter attributes inherit along the MRO; merged defaults are re-validated.
+
+  "When a class redeclares a Parameter, every attribute it leaves unspecified
+   takes, independently per attribute, the value held by the nearest class in its
+   MRO that declares the same Parameter with that attribute (else the type's
+   default); `instantiate=True` is inherited from any ancestor and `allow_None` is
+   recomputed from the class's own declaration. Class creation, like
+   `add_parameter`, fails exactly when the merged default violates the merged
+   constraints or type (a merged default of None is re-checked only if the
+   Parameter type changed along the way), so no class exists whose non-None
+   Parameter default contradicts its own bounds or type."
+
+Model: Store/Inherit.lean (`inherit` = `__param_inheritance`, `construct` = the
+constructors, `step`/`run` = class creation and `add_parameter`; the MRO of every
+class is data).  Declarative resolver: Store/InheritSpec.lean.  Helper lemmas:
+Store/InheritLemmas.lean.  Only property theorems and their non-vacuity examples
+live here.
+
+Throughout, `own` is the declaration's own (unbound) Parameter, `supers` is what
+the classes of `mro(cls)[1:]` hold under the same name (`none`: the class skips the
+declaration), and `Outcome.reached` says the merge got to the re-validation
+decision (it is `ok` or `invalid _`).
+
+Two clauses of the statement are FALSE of the code as it is and are refuted
+below from concrete witnesses (replayed on the implementation by the harness):
+`names` of a dict-declared Selector is not inherited, and a failed
+`add_parameter` leaves the invalid Parameter installed.
 -/
 import ParamVerif.Store.InheritLemmas
 
 namespace ParamVerif.Inherit
 
-/-- "`instantiate=True` is inherited from any ancestor": the merged Parameter is
-instantiated iff its own declaration asks for it or some class of the MRO holds
-the Parameter with `instantiate` true — whatever else happens in the merge. -/
+/-! ## "every attribute it leaves unspecified takes … the value held by the nearest class" -/
+
+/-- **Per attribute, independently**: every slot of the merged Parameter that the type does
+not compute (`Slot.computedFor`) and that is not `names` holds the class's own value if the
+declaration specifies it, else the value held by the nearest class of the MRO that declares the
+same Parameter with that slot, else the type's default — for every hierarchy (the MRO is
+arbitrary data), every subset of specified slots, every type change. -/
+theorem held_slot_eq_nearest (rx : String → String → Bool) (op name : Nat) (own : Param)
+    (supers : List (Option Param))
+    (hr : (inherit rx op name own supers).outcome.reached = true)
+    {s : Slot} (hs : hasSlot own.ptype s = true) (hn : s ≠ .names)
+    (hc : Slot.computedFor own.ptype s = false) :
+    (inherit rx op name own supers).param.cfg s =
+      (match own.slots s with
+       | some v => some v.v
+       | none =>
+         match nearest supers s with
+         | some v => some v.v
+         | none =>
+           match typeDefault own.ptype s with
+           | .static v => some v.v
+           | _ => none) := by
+  rw [held_static_slot rx op name own supers hr hs hn hc]
+  unfold specStatic chosen
+  rw [ownSpecified_of_ne_names own hn]
+  cases own.slots s with
+  | some v => rfl
+  | none =>
+    cases nearest supers s with
+    | some v => rfl
+    | none =>
+      cases h : typeDefault own.ptype s with
+      | static v => rfl
+      | computed => rfl
+      | missing =>
+        exfalso
+        revert h
+        cases s <;> cases own.ptype <;> simp [typeDefault] <;> exact absurd rfl hn
+
+/-- …and the computed slots too (Tuple `length` from the merged default; Selector
+`check_on_set` from the merged objects; Selector `objects`, which adopt the default when
+membership is not checked): every slot but `names` equals the declarative resolver
+`expected` — the function the oracle evaluates on the implementation's observations. -/
+theorem held_eq_expected (rx : String → String → Bool) (op name : Nat) (own : Param)
+    (supers : List (Option Param))
+    (hr : (inherit rx op name own supers).outcome.reached = true)
+    (hcos : own.ptype = .selector → ∃ b, specCheckOnSet own supers = some (.atom (.bool b)))
+    {s : Slot} (hs : hasSlot own.ptype s = true) (hn : s ≠ .names) :
+    (inherit rx op name own supers).param.cfg s = expected own supers s :=
+  held_eq_expected_all rx op name own supers hr hcos hs hn
+
+/-- `nearest` is the first class of the MRO (after the class itself) that declares the
+Parameter with the slot: classes that skip the declaration, or whose Parameter type lacks the
+slot, are passed over. -/
+theorem nearest_skips (sp : Option Param) (rest : List (Option Param)) (s : Slot)
+    (h : slotAt s sp = none) : nearest (sp :: rest) s = nearest rest s := by
+  simp only [nearest, List.filterMap_cons, h]
+
+theorem nearest_first (sp : Option Param) (rest : List (Option Param)) (s : Slot) (v : Val)
+    (h : slotAt s sp = some v) : nearest (sp :: rest) s = some v := by
+  simp [nearest, h]
+
+/-! ## "`instantiate=True` is inherited from any ancestor" -/
+
 theorem instantiate_inherited_from_any_ancestor (rx : String → String → Bool) (op name : Nat)
     (own : Param) (supers : List (Option Param)) :
     (inherit rx op name own supers).param.instantiate = true ↔
@@ -31,5 +118,555 @@ theorem instantiate_inherited_from_any_ancestor (rx : String → String → Bool
   · rintro (h | ⟨p, hm, hi⟩)
     · exact Or.inl h
     · exact Or.inr ⟨some p, hm, hi⟩
+
+/-! ## "`allow_None` is recomputed from the class's own declaration" -/
+
+/-- what the constructors make of `allow_None`: for a Selector the argument (else None); for every
+other type True when the default the constructor sees (the argument, else the type's default) is
+None, else the argument, else False -/
+def declAllowNone (d : Decl) : PyV :=
+  if d.ptype = .selector then
+    (match d.args .allowNone with | some v => v.v | none => .atom .pyNone)
+  else if seesNone d.ptype (d.args .default) then .atom (.bool true)
+  else (match d.args .allowNone with | some v => v.v | none => .atom (.bool false))
+
+theorem construct_allowNone (rx : String → String → Bool) (op name : Nat) (d : Decl) (own : Param)
+    (h : construct rx op name d = .ok own) : own.cfg .allowNone = some (declAllowNone d) := by
+  unfold construct at h
+  split at h
+  · rename_i hpt
+    cases h
+    simp only [Param.cfg, declAllowNone, hpt, reduceCtorEq, if_false]
+    exact baseInit_allowNone .parameter _ _ _ (by decide)
+  · rename_i hpt
+    obtain ⟨rfl, _⟩ := checked_ok h
+    simp only [Param.cfg, declAllowNone, hpt, reduceCtorEq, if_false, Slots.set]
+    exact baseInit_allowNone .number _ _ _ (by decide)
+  · rename_i hpt
+    obtain ⟨rfl, _⟩ := checked_ok h
+    simp only [Param.cfg, declAllowNone, hpt, reduceCtorEq, if_false, Slots.set]
+    exact baseInit_allowNone .integer _ _ _ (by decide)
+  · rename_i hpt
+    obtain ⟨rfl, _⟩ := checked_ok h
+    simp only [Param.cfg, declAllowNone, hpt, reduceCtorEq, if_false, Slots.set]
+    exact baseInit_allowNone .string _ _ _ (by decide)
+  · rename_i hpt
+    cases hc : tupleNoLength d.args with
+    | true => simp [hc] at h
+    | false =>
+      simp only [hc, Bool.false_eq_true, if_false] at h
+      cases hl : tupleLength d.args with
+      | error e => simp [hl] at h
+      | ok len =>
+        simp only [hl] at h
+        obtain ⟨rfl, _⟩ := checked_ok h
+        simp only [Param.cfg, declAllowNone, hpt, reduceCtorEq, if_false, Slots.set]
+        exact baseInit_allowNone .tuple _ _ _ (by decide)
+  · rename_i hpt
+    obtain ⟨rfl, _⟩ := checked_ok h
+    simp only [Param.cfg, declAllowNone, hpt, reduceCtorEq, if_false, Slots.set]
+    exact baseInit_allowNone .list _ _ _ (by decide)
+  · rename_i hpt
+    -- Selector: `allow_None` is set after `super().__init__`, whatever the default
+    have hraw : ∀ ad, ((selectorRaw op name d.args d.instantiate ad).slots .allowNone).map (·.v) =
+        some (match d.args .allowNone with | some v => v.v | none => .atom .pyNone) := by
+      intro ad
+      simp only [selectorRaw, Slots.set, if_true]
+      cases d.args .allowNone <;> simp [staticDefaultV, typeDefault, noneV, atomV]
+    unfold constructSelector at h
+    cases had : selectorAutodefault d.args with
+    | error e => simp [had] at h
+    | ok ad =>
+      simp only [had] at h
+      cases hv : unboundView .selector op name (selectorRaw op name d.args d.instantiate ad).slots with
+      | error e => simp [hv] at h
+      | ok view =>
+        simp only [hv] at h
+        cases hdv : view .default with
+        | none => simp [hdv] at h
+        | some dv =>
+          cases hcv : view .checkOnSet with
+          | none => simp [hdv, hcv] at h
+          | some cos =>
+            simp only [hdv, hcv] at h
+            cases hval : (if dv.v.isNone = true then (Except.ok () : Except ErrKind Unit)
+                else validateSelector (cfgOf view) dv.v) with
+            | error e => simp [hval] at h
+            | ok u =>
+              simp only [hval] at h
+              simp only [declAllowNone, hpt, if_true]
+              split at h
+              · cases he : ensureInObjects (selectorRaw op name d.args d.instantiate ad).slots dv.v with
+                | error e => simp [he] at h
+                | ok s' =>
+                  simp only [he] at h
+                  cases h
+                  have := ensureInObjects_cfg he .allowNone
+                  simp only [reduceCtorEq, if_false] at this
+                  show cfgOf s' .allowNone = _
+                  rw [this]
+                  exact hraw ad
+              · cases h
+                exact hraw ad
+
+/-- The merged `allow_None` is the one of the class's own declaration — never an ancestor's:
+a constructor always sets it, so the search stops at the class itself. -/
+theorem allowNone_from_own_declaration (rx : String → String → Bool) (op name op' : Nat) (d : Decl)
+    (own : Param) (supers : List (Option Param))
+    (hown : construct rx op' name d = .ok own)
+    (hr : (inherit rx op name own supers).outcome.reached = true) :
+    (inherit rx op name own supers).param.cfg .allowNone = some (declAllowNone d) := by
+  have hc := construct_allowNone rx op' name d own hown
+  rw [held_static_slot rx op name own supers hr rfl (by decide) (by cases own.ptype <;> rfl)]
+  unfold specStatic chosen
+  rw [ownSpecified_of_ne_names own (by decide)]
+  simp only [Param.cfg] at hc
+  cases h : own.slots .allowNone with
+  | none => simp [h] at hc
+  | some v => simpa [h] using hc
+
+/-! ## "a merged default … is re-checked …" -/
+
+/-- **When the merged default is re-validated**: exactly when the Parameter type changed along
+the MRO (some class declares it with a type that is not a subclass of the new one), or some
+validated slot offers two non-identical values along the MRO and the merged default is not None. -/
+theorem revalidates_iff (rx : String → String → Bool) (op name : Nat) (own : Param)
+    (supers : List (Option Param))
+    (hr : (inherit rx op name own supers).outcome.reached = true) :
+    (inherit rx op name own supers).revalidated = true ↔
+      (∃ h, some h ∈ supers ∧ h.ptype.sub own.ptype = false) ∨
+      ((∃ s o v, hasSlot own.ptype s = true ∧ nonValidated s = false ∧
+          firstSome (offers own.slots supers s) = some o ∧ some v ∈ offers own.slots supers s ∧ v.is o = false) ∧
+        (inherit rx op name own supers).param.cfg .default ≠ some (.atom .pyNone)) := by
+  rw [revalidated_eq rx op name own supers hr]
+  obtain ⟨_, d, _, _, hdef⟩ := inherit_default rx op name own supers hr
+  rw [hdef]
+  simp only [Bool.or_eq_true, Bool.and_eq_true, Bool.not_eq_true']
+  have h1 : typeChange own.ptype supers = true ↔ ∃ h, some h ∈ supers ∧ h.ptype.sub own.ptype = false := by
+    simp only [typeChange, List.any_eq_true]
+    constructor
+    · rintro ⟨sp, hm, hx⟩
+      cases sp with
+      | none => simp at hx
+      | some h => exact ⟨h, hm, by simpa using hx⟩
+    · rintro ⟨h, hm, hx⟩
+      exact ⟨some h, hm, by simpa using hx⟩
+  have h2 : anyOverridden own.slots supers (slotsOf own.ptype) = true ↔
+      ∃ s o v, hasSlot own.ptype s = true ∧ nonValidated s = false ∧
+        firstSome (offers own.slots supers s) = some o ∧ some v ∈ offers own.slots supers s ∧ v.is o = false := by
+    simp only [anyOverridden, List.any_eq_true, Bool.and_eq_true, Bool.not_eq_true', mem_slotsOf, distinct2_true_iff]
+    constructor
+    · rintro ⟨s, hs, hv, o, v, a, b, c⟩; exact ⟨s, o, v, hs, hv, a, b, c⟩
+    · rintro ⟨s, o, v, hs, hv, a, b, c⟩; exact ⟨s, hs, hv, o, v, a, b, c⟩
+  have h3 : d.v.isNone = false ↔ some d.v ≠ some (.atom .pyNone) := by
+    cases hd : d.v with
+    | atom a => cases a <;> simp [PyV.isNone]
+    | _ => simp [PyV.isNone]
+  rw [h1, h2, h3]
+
+/-! ## "Class creation … fails exactly when the merged default violates the merged constraints or type" -/
+
+/-- **Creation fails iff** (conditioned, as the scope note says, on the declaration's own
+constructor having succeeded, and on the classes above being as the invariant leaves them):
+a computed slot cannot be computed (`len(None)` for a Tuple length), or the merged default
+violates the merged constraints or type *and* it is not None or the type changed along the way.
+A None default under an unchanged type is never re-checked. -/
+theorem creation_fails_iff (rx : String → String → Bool) (op name : Nat) (own : Param)
+    (supers : List (Option Param))
+    (hown : OwnValid rx own) (hsup : ∀ h, some h ∈ supers → Good rx h)
+    (hsupp : (inherit rx op name own supers).outcome ≠ .unsupported)
+    (hkey : (inherit rx op name own supers).outcome ≠ .keyError) :
+    (inherit rx op name own supers).outcome ≠ .ok ↔
+      ((inherit rx op name own supers).outcome = .callableError ∨
+       ((typeChange own.ptype supers = true ∨
+           (inherit rx op name own supers).param.cfg .default ≠ some (.atom .pyNone)) ∧
+         Sat rx own.ptype (inherit rx op name own supers).param.cfg = false)) := by
+  constructor
+  · intro hne
+    cases ho : (inherit rx op name own supers).outcome with
+    | ok => exact absurd ho hne
+    | keyError => exact absurd ho hkey
+    | unsupported => exact absurd ho hsupp
+    | callableError => exact Or.inl rfl
+    | invalid e =>
+      right
+      have hr : (inherit rx op name own supers).outcome.reached = true := by rw [ho]; rfl
+      have hiff := outcome_ok_iff rx op name own supers hr
+      have hnot : ¬ ((inherit rx op name own supers).revalidated = false ∨
+          Sat rx own.ptype (inherit rx op name own supers).param.cfg = true) := by
+        intro h; have := hiff.2 h; rw [ho] at this; cases this
+      simp only [not_or, Bool.not_eq_false, Bool.not_eq_true] at hnot
+      refine ⟨?_, hnot.2⟩
+      have := (revalidates_iff rx op name own supers hr).1 hnot.1
+      rcases this with ⟨h, hm, hs⟩ | ⟨_, hd⟩
+      · left
+        simp only [typeChange, List.any_eq_true]
+        exact ⟨some h, hm, by simpa using hs⟩
+      · exact Or.inr hd
+  · rintro (hc | ⟨hcond, hsat⟩) hok
+    · rw [hok] at hc; cases hc
+    · have hr : (inherit rx op name own supers).outcome.reached = true := by rw [hok]; rfl
+      have hgood := inherit_ok_good rx op name own supers hown hsup hok
+      obtain ⟨_, d, _, _, hdef⟩ := inherit_default rx op name own supers hr
+      have hdok := hgood.2
+      unfold defaultOk at hdok
+      rw [hdef] at hdok
+      simp only [inherit_ptype, hsat, Bool.or_false] at hdok
+      -- the default is None, so the type must have changed; then it was re-validated, and passed
+      rcases hcond with htc | hd
+      · have hrev : (inherit rx op name own supers).revalidated = true := by
+          rw [revalidated_eq rx op name own supers hr, htc]; rfl
+        have := (outcome_ok_iff rx op name own supers hr).1 hok
+        rcases this with h | h
+        · rw [hrev] at h; cases h
+        · rw [hsat] at h; cases h
+      · apply hd
+        rw [hdef]
+        cases hv : d.v with
+        | atom a => cases a <;> simp_all [PyV.isNone]
+        | _ => simp_all [PyV.isNone]
+
+/-- **The oracle's criterion is the model's behaviour**: under the standing conditions (own
+constructor succeeded, the classes above are valid, the case is inside the modelled fragment),
+creation fails exactly when `shouldFail` of the declarative specification says so. -/
+theorem creation_fails_iff_spec (rx : String → String → Bool) (op name : Nat) (own : Param)
+    (supers : List (Option Param))
+    (hown : OwnValid rx own) (hsup : ∀ h, some h ∈ supers → Good rx h)
+    (hsupp : (inherit rx op name own supers).outcome ≠ .unsupported)
+    (hkey : (inherit rx op name own supers).outcome ≠ .keyError)
+    (hcos : own.ptype = .selector → ∃ b, specCheckOnSet own supers = some (.atom (.bool b))) :
+    (inherit rx op name own supers).outcome ≠ .ok ↔ shouldFail rx own supers = true := by
+  by_cases hce : (inherit rx op name own supers).outcome = .callableError
+  · have := callableError_not_computable rx op name own supers hce
+    simp [shouldFail, this, hce]
+  · have hr : (inherit rx op name own supers).outcome.reached = true := by
+      cases ho : (inherit rx op name own supers).outcome with
+      | ok => rfl
+      | invalid e => rfl
+      | keyError => exact absurd ho hkey
+      | callableError => exact absurd ho hce
+      | unsupported => exact absurd ho hsupp
+    have hcomp := computable_of_reached rx op name own supers hr hcos
+    obtain ⟨_, d, _, _, hdef⟩ := inherit_default rx op name own supers hr
+    have hheld : ∀ s, hasSlot own.ptype s = true → s ≠ .names →
+        (inherit rx op name own supers).param.cfg s = expectedCfg own supers s := by
+      intro s hs hn
+      rw [held_eq_expected rx op name own supers hr hcos hs hn]
+      simp [expectedCfg, hs]
+    have hsat : Sat rx own.ptype (inherit rx op name own supers).param.cfg = Sat rx own.ptype (expectedCfg own supers) := by
+      apply Sat_congr
+      · exact hheld .default rfl (by decide)
+      · intro s hs
+        exact hheld s (relevant_hasSlot hs) (by intro h; subst h; revert hs; cases own.ptype <;> simp [relevant])
+    have hsd : specDefault own supers = d.v := by
+      have := hheld .default rfl (by decide)
+      rw [hdef] at this
+      simp only [expectedCfg, hasSlot, if_true] at this
+      have he : expected own supers .default = specStatic own supers .default := by
+        unfold expected; cases own.ptype <;> rfl
+      rw [he] at this
+      unfold specDefault
+      rw [← this]; rfl
+    rw [creation_fails_iff rx op name own supers hown hsup hsupp hkey]
+    simp only [hce, false_or, shouldFail, hcomp, Bool.not_true, Bool.false_or, Bool.and_eq_true, Bool.or_eq_true,
+      Bool.not_eq_true', hsat, hsd, hdef, specTypeChanged]
+    have h3 : some d.v ≠ some (.atom .pyNone) ↔ d.v.isNone = false := by
+      cases hd : d.v with
+      | atom a => cases a <;> simp [PyV.isNone]
+      | _ => simp [PyV.isNone]
+    rw [h3]
+
+/-- `callableError` is exactly "a computed slot cannot be computed": the only such slot that can
+fail for a well-formed declaration is a Tuple's length when no class supplies one and the merged
+default has no `len`. -/
+theorem callableError_is_uncomputable (rx : String → String → Bool) (op name : Nat) (own : Param)
+    (supers : List (Option Param)) (hT : own.ptype = .tuple) :
+    (inherit rx op name own supers).outcome = .callableError ↔
+      (specStatic own supers .length = none ∧ (specDefault own supers).len = none) := by
+  have hc0 : ∀ t, hasSlot own.ptype t = true →
+      cfgOf (staticFill .tuple (mergeSearch own supers).1) t = specStatic own supers t := by
+    intro t ht
+    rw [← hT]
+    exact staticFill_found_cfg own supers ht (by intro h; subst h; rw [hT] at ht; cases ht)
+  have hlen : lenOfDefault (cfgOf (staticFill .tuple (mergeSearch own supers).1)) = none ↔
+      (specDefault own supers).len = none := by
+    unfold lenOfDefault specDefault
+    rw [hc0 .default (by rw [hT]; rfl)]
+    cases specStatic own supers .default <;> simp [PyV.len]
+  unfold inherit
+  simp only [hT]
+  have hmk : missingKey .tuple (mergeSearch own supers).1 = false := by
+    simp [missingKey, slotsOf, slotOrder, hasSlot, typeDefault]
+  simp only [prepare, hmk, Bool.false_eq_true, if_false, updateState]
+  cases hrc : runCallables .tuple 1 op name (copyMutable op name (staticFill .tuple (mergeSearch own supers).1)) with
+  | error e =>
+    simp only []
+    have := runCallables_tuple_err hrc
+    rw [cfgOf_copyMutable, hc0 .length (by rw [hT]; rfl)] at this
+    exact ⟨fun _ => ⟨this.1, hlen.1 this.2⟩, fun _ => trivial⟩
+  | ok f3 =>
+    simp only []
+    have h3 := runCallables_tuple_cfg hrc .length
+    simp only [if_true, cfgOf_copyMutable, hc0 .length (by rw [hT]; rfl)] at h3
+    have hsome : (f3 .length).isSome = true := by
+      have hp : prepare .tuple op name (mergeSearch own supers).1 = .ok f3 := by
+        simp [prepare, hmk, hrc, updateState]
+      exact prepare_filled hp rfl
+    constructor
+    · intro h
+      exfalso
+      revert h
+      split
+      · intro h; cases h
+      · split
+        · intro h
+          exact revalidate_not_callableError rx _ _ _ h
+        · intro h; cases h
+    · rintro ⟨h1, h2⟩
+      rw [h1, hlen.2 h2] at h3
+      rw [← isSome_cfgOf, h3] at hsome
+      cases hsome
+
+end ParamVerif.Inherit
+
+namespace ParamVerif.Inherit
+
+/-! ## "…so no class exists whose non-None Parameter default contradicts its own bounds or type" -/
+
+/-- The invariant of the last sentence, for every class and every Parameter it owns. -/
+def NoInvalidDefault (rx : String → String → Bool) (w : World) : Prop :=
+  ∀ c n p, w.params c n = some p → defaultOk rx p = true
+
+/-- The statement as written: after *any* history of class declarations and `add_parameter`
+calls no class owns a Parameter whose non-None default violates its own constraints. -/
+def C11_full : Prop :=
+  ∀ (rx : String → String → Bool) (ops : List Op), NoInvalidDefault rx (run rx ops 0 World.empty []).1
+
+/-- What holds of the code: the same, for histories in which no `add_parameter` call failed
+(`noFailedAdd`).  Class creation itself needs no such proviso: a class whose merge fails does
+not come into existence.  The MROs in `ops` are arbitrary data. -/
+theorem no_class_with_nonNone_default_violating_constraints_partial (rx : String → String → Bool)
+    (ops : List Op) (h : noFailedAdd rx ops 0 World.empty = true) :
+    NoInvalidDefault rx (run rx ops 0 World.empty []).1 := by
+  intro c n p hp
+  exact (run_preserves_inv rx (construct_ownValid rx) ops 0 World.empty []
+    (by intro c n p hp; cases hp) h c n p hp).2
+
+def rxTrue : String → String → Bool := fun _ _ => true
+
+def mkDecl (T : PType) (args : List (Slot × Val)) (inst : Option Bool := none) : Decl :=
+  { ptype := T, args := fun s => (args.find? (·.1 == s)).map (·.2), instantiate := inst }
+
+def intV (n : Int) : Val := atomV (.int n)
+
+/-- witness (replayed on the implementation as a directed case of the harness):
+`A: x = Number(5, bounds=(0, 10))`, `N(A): pass`, `N.param.add_parameter('x', Number(default=50))`
+raises, but `N.x == 50` stays installed. -/
+def witnessFailedAdd : List Op :=
+  [.declare 0 [0] [(0, mkDecl .number [(.default, intV 5), (.bounds, ⟨.obj 1, .tuple [.int 0, .int 10]⟩)])],
+   .declare 1 [1, 0] [],
+   .addParam 1 0 (mkDecl .number [(.default, intV 50)])]
+
+theorem C11_full_refuted : ¬ C11_full := by
+  intro h
+  have h1 := h rxTrue witnessFailedAdd 1 0
+  have h2 : ((run rxTrue witnessFailedAdd 0 World.empty []).1.params 1 0).map (defaultOk rxTrue) = some false := by
+    decide
+  cases hp : (run rxTrue witnessFailedAdd 0 World.empty []).1.params 1 0 with
+  | none => rw [hp] at h2; cases h2
+  | some p =>
+    rw [hp] at h2
+    have := h1 p hp
+    simp only [Option.map_some, Option.some.injEq] at h2
+    rw [this] at h2
+    cases h2
+
+/-- the witness is excluded by the partial theorem's hypothesis, and only by it -/
+example : noFailedAdd rxTrue witnessFailedAdd 0 World.empty = false := by decide
+example : noFailedAdd rxTrue (witnessFailedAdd.take 2) 0 World.empty = true := by decide
+
+/-! ## `names` of a dict-declared Selector: a slot that is *not* inherited -/
+
+/-- every slot, `names` included, takes the value of the declarative resolver -/
+def names_inherited_full : Prop :=
+  ∀ (rx : String → String → Bool) (op name : Nat) (own : Param) (supers : List (Option Param)),
+    (inherit rx op name own supers).outcome.reached = true → own.ptype = .selector →
+    (inherit rx op name own supers).param.cfg .names = expected own supers .names
+
+/-- What the code does: `names` is whatever the declaration's own constructor set — `{}` when
+`objects` is not given, even though `objects` itself is then inherited. -/
+theorem names_from_own_declaration (rx : String → String → Bool) (op name : Nat) (own : Param)
+    (supers : List (Option Param))
+    (hr : (inherit rx op name own supers).outcome.reached = true)
+    (hT : own.ptype = .selector) (hown : (own.slots .names).isSome = true) :
+    (inherit rx op name own supers).param.cfg .names = own.cfg .names :=
+  held_names_own rx op name own supers hr hT hown
+
+/-- `A: x = Selector(objects={'a': 1, 'b': 2})` -/
+def selA : Decl := mkDecl .selector [(.objects, ⟨.obj 1, .dict [("a", .int 1), ("b", .int 2)]⟩)]
+/-- `B(A): x = Selector(default=2)` -/
+def selB : Decl := mkDecl .selector [(.default, intV 2)]
+
+def witnessNames : List Op := [.declare 0 [0] [(0, selA)], .declare 1 [1, 0] [(0, selB)]]
+
+/-- B inherits the objects `[1, 2]` but holds `names = {}` -/
+example : ((run rxTrue witnessNames 0 World.empty []).1.params 1 0).map (fun p => (p.cfg .objects, p.cfg .names)) =
+    some (some (.list [.int 1, .int 2]), some (.dict [])) := by decide
+
+/-- B's own (unbound) Parameter, as its constructor leaves it -/
+def witnessOwnB : Param :=
+  match construct rxTrue 1 0 selB with
+  | .ok p => p
+  | .error _ => { ptype := .parameter, slots := fun _ => none, instantiate := false }
+
+/-- what class A holds -/
+def witnessHeldA : Option Param := (run rxTrue [.declare 0 [0] [(0, selA)]] 0 World.empty []).1.params 0 0
+
+theorem names_inherited_refuted : ¬ names_inherited_full := by
+  intro h
+  have h1 := h rxTrue 1 0 witnessOwnB [witnessHeldA] (by decide) (by decide)
+  have h2 : ¬ ((inherit rxTrue 1 0 witnessOwnB [witnessHeldA]).param.cfg .names =
+      expected witnessOwnB [witnessHeldA] .names) := by decide
+  exact h2 h1
+
+end ParamVerif.Inherit
+
+namespace ParamVerif.Inherit
+
+/-! ## "Class creation, like `add_parameter`, …" -/
+
+/-- `Cls.param.add_parameter(name, P)` merges exactly as declaring `name = P` in the body of a
+new class with the same rest-of-MRO would: same constructed Parameter, same merge result (slots,
+flags, outcome).  The one difference is what happens to the class on failure: a class whose
+creation fails does not exist, whereas `add_parameter` has already installed the Parameter. -/
+theorem add_parameter_same_as_declaration (rx : String → String → Bool) (i : Nat) (w : World)
+    (cls cls' name : Nat) (decl : Decl) (m : List Nat)
+    (hm : w.mro cls = some m) (hnew : w.mro cls' = none)
+    (htail : ∀ a ∈ m.tail, (w.mro a).isSome = true) (hnot : cls' ∉ m.tail) :
+    let a := step rx i w (.addParam cls name decl)
+    let d := step rx i w (.declare cls' (cls' :: m.tail) [(name, decl)])
+    a.2.raws = d.2.raws ∧ a.2.merged = d.2.merged ∧ a.2.outcome = d.2.outcome ∧
+      (a.2.outcome = .ok → a.1.params cls name = d.1.params cls' name) := by
+  have hcond : ((cls' != cls' || (w.mro cls').isSome || m.tail.any fun a => (w.mro a).isNone) ||
+      m.tail.contains cls') = false := by
+    simp only [bne_self_eq_false, hnew, Option.isSome_none, Bool.or_self, Bool.false_or, Bool.or_eq_false_iff,
+      List.any_eq_false, List.contains_eq_mem, decide_eq_false_iff_not]
+    refine ⟨?_, hnot⟩
+    intro a ha
+    have := htail a ha
+    cases h : w.mro a with
+    | none => simp [h] at this
+    | some _ => simp
+  simp only [step, hm, hcond, Bool.false_eq_true, if_false, constructAll]
+  cases hc : construct rx i name decl with
+  | error e => simp
+  | ok raw =>
+    simp only [List.reverse_cons, List.reverse_nil, List.nil_append, mergeAll]
+    cases ho : (inherit rx i name raw (w.supers m.tail name)).outcome == Outcome.ok with
+    | true =>
+      simp only [if_true]
+      exact ⟨trivial, trivial, trivial, fun _ => by simp [lookupParam]⟩
+    | false =>
+      simp only [Bool.false_eq_true, if_false]
+      exact ⟨trivial, trivial, trivial, fun h => by cases h⟩
+
+/-! ## Validation: what `Sat` says for a Number -/
+
+/-- For a Number whose merged configuration is well-typed (no step, inclusive bounds `(True, True)`),
+`Sat` is: the default is None under a truthy `allow_None`, or a number within the bounds. -/
+theorem sat_number_in_bounds (rx : String → String → Bool) (c : Cfg) (allowNone : Bool) (v lo hi : Int)
+    (h1 : c .allowNone = some (.atom (.bool allowNone))) (h2 : c .step = some (.atom .pyNone))
+    (h3 : c .bounds = some (.tuple [.int lo, .int hi]))
+    (h4 : c .inclusiveBounds = some (.tuple [.bool true, .bool true]))
+    (h5 : c .default = some (.atom (.int v))) :
+    Sat rx .number c = true ↔ (lo ≤ v ∧ v ≤ hi) := by
+  rw [Sat_iff_validate h5]
+  simp only [validate, validateNumber, h1, h2, h3, h4, numValueOk, numStepOk, PyV.isNone, PyV.isNumber, Atom.num2,
+    PyV.truthy, checkNumBounds, boundOk, PyV.isTrue]
+  by_cases hh : v ≤ hi <;> by_cases hl : lo ≤ v <;> simp [hh, hl] <;> omega
+
+/-! ## Non-vacuity: concrete hierarchies (evaluated by the kernel) -/
+
+def numBounds (id : Nat) (lo hi : Int) : Val := ⟨.obj id, .tuple [.int lo, .int hi]⟩
+def strV (s : String) : Val := atomV (.str s)
+
+/-- the diamond of probe p14:
+`A: Number(5, bounds=(0,10), doc='A doc', step=1)`, `B(A): Number(bounds=(0,20))`,
+`C(A): Number(default=7, doc='C doc')`, `D(B, C): Number(softbounds=(1,2))`; MRO of D is D, B, C, A -/
+def diamond : List Op :=
+  [.declare 0 [0] [(0, mkDecl .number [(.default, intV 5), (.bounds, numBounds 1 0 10), (.doc, strV "A doc"), (.step, intV 1)])],
+   .declare 1 [1, 0] [(0, mkDecl .number [(.bounds, numBounds 2 0 20)])],
+   .declare 2 [2, 0] [(0, mkDecl .number [(.default, intV 7), (.doc, strV "C doc")])],
+   .declare 3 [3, 1, 2, 0] [(0, mkDecl .number [(.softbounds, numBounds 3 1 2)])]]
+
+/-- D holds default 5 (held by B, the nearest class; B took it from A), bounds (0,20) from B, doc
+"A doc" (held by B), step 1, its own softbounds — independently per slot -/
+example : ((run rxTrue diamond 0 World.empty []).1.params 3 0).map
+      (fun p => (p.cfg .default, p.cfg .bounds, p.cfg .doc, p.cfg .step, p.cfg .softbounds)) =
+    some (some (.atom (.int 5)), some (.tuple [.int 0, .int 20]), some (.atom (.str "A doc")),
+          some (.atom (.int 1)), some (.tuple [.int 1, .int 2])) := by decide
+
+/-- every step of the diamond was created, and the last merge was re-validated (bounds overridden) and passed -/
+example : ((run rxTrue diamond 0 World.empty []).2.map (·.outcome)) = [.ok, .ok, .ok, .ok] := by decide
+example : (((run rxTrue diamond 0 World.empty []).2.getLast?).map
+    (fun o => o.merged.map (fun x => (x.2.typeChange, x.2.overridden, x.2.revalidated)))) =
+    some [(false, true, true)] := by decide
+example : noFailedAdd rxTrue diamond 0 World.empty = true := by decide
+
+/-- a class that skips the declaration, then a conflicting grandchild: creation fails -/
+def skipThenConflict : List Op :=
+  [.declare 0 [0] [(0, mkDecl .number [(.default, intV 5), (.bounds, numBounds 1 0 10)])],
+   .declare 1 [1, 0] [],
+   .declare 2 [2, 1, 0] [(0, mkDecl .number [(.default, intV 11)])]]
+example : ((run rxTrue skipThenConflict 0 World.empty []).2.map (·.outcome)) =
+    [.ok, .ok, .mergeError 0 (.invalid .valueError)] := by decide
+
+/-- type change Number → Integer with an inherited float default fails; Integer → Number is no type change -/
+def typeChanges : List Op :=
+  [.declare 0 [0] [(0, mkDecl .number [(.default, ⟨.obj 1, .atom (.float 11)⟩)])],
+   .declare 1 [1, 0] [(0, mkDecl .integer [])],
+   .declare 2 [2, 0] [(0, mkDecl .integer [(.default, intV 3)])],
+   .declare 3 [3, 2, 0] [(0, mkDecl .number [])]]
+example : ((run rxTrue typeChanges 0 World.empty []).2.map
+    (fun o => (o.outcome, o.merged.map (·.2.typeChange)))) =
+    [(.ok, [false]), (.mergeError 0 (.invalid .valueError), [true]), (.ok, [true]), (.ok, [false])] := by decide
+
+/-- same-type None default: `allow_None` is recomputed (False) from the own declaration, the
+override is noticed, and the None default is *not* re-checked -/
+def noneDefault : List Op :=
+  [.declare 0 [0] [(0, mkDecl .string [(.default, noneV)])],
+   .declare 1 [1, 0] [(0, mkDecl .string [])]]
+example : ((run rxTrue noneDefault 0 World.empty []).1.params 1 0).map (fun p => (p.cfg .default, p.cfg .allowNone)) =
+    some (some (.atom .pyNone), some (.atom (.bool false))) := by decide
+example : (((run rxTrue noneDefault 0 World.empty []).2.getLast?).map
+    (fun o => (o.outcome, o.merged.map (fun x => (x.2.overridden, x.2.revalidated))))) =
+    some (.ok, [(true, false)]) := by decide
+
+/-- instantiate from a non-nearest ancestor -/
+def instChain : List Op :=
+  [.declare 0 [0] [(0, mkDecl .parameter [] (some true))],
+   .declare 1 [1, 0] [(0, mkDecl .parameter [])],
+   .declare 2 [2, 1, 0] [(0, mkDecl .parameter [] (some false))]]
+example : ((run rxTrue instChain 0 World.empty []).1.params 2 0).map (·.instantiate) = some true := by decide
+
+/-- identity, not equality: the very same bounds object at two levels is not an override;
+an equal but distinct tuple is -/
+def identity : List Op :=
+  [.declare 0 [0] [(0, mkDecl .number [(.default, intV 5), (.bounds, numBounds 1 0 10)])],
+   .declare 1 [1, 0] [(0, mkDecl .number [(.bounds, numBounds 1 0 10)])],
+   .declare 2 [2, 0] [(0, mkDecl .number [(.bounds, numBounds 2 0 10)])]]
+example : ((run rxTrue identity 0 World.empty []).2.map (fun o => o.merged.map (·.2.overridden))) =
+    [[false], [false], [true]] := by decide
+
+/-- Tuple length computed from the inherited default; `len(None)` cannot be computed -/
+def tupleLen : List Op :=
+  [.declare 0 [0] [(0, mkDecl .parameter [(.default, ⟨.obj 1, .tuple [.int 1, .int 2, .int 3]⟩)])],
+   .declare 1 [1, 0] [(0, mkDecl .tuple [])],
+   .declare 2 [2] [(0, mkDecl .parameter [])],
+   .declare 3 [3, 2] [(0, mkDecl .tuple [(.allowNone, boolV true)])]]
+example : ((run rxTrue tupleLen 0 World.empty []).1.params 1 0).map (·.cfg .length) = some (some (.atom (.int 3))) := by
+  decide
+example : ((run rxTrue tupleLen 0 World.empty []).2.map (·.outcome)) =
+    [.ok, .ok, .ok, .mergeError 0 .callableError] := by decide
 
 end ParamVerif.Inherit
